@@ -49,10 +49,20 @@ def run(ck):
         ck.violation("h_conc does not compile with ThreadSanitizer", {"compiler_output": out[-3000:]}, tag="build_tsan", no_input=True)
     else:
         for T, R in ((4, 2), (8, 1)) + (() if q else ((16, 5),)):
-            rc, o, e = vf.run_io([tx, str(T), str(R)], "", timeout=900, env={"TSAN_OPTIONS": "halt_on_error=0 exitcode=66"}); runs += 1
+            # (a) thread-private objects: must be silent
+            rc, o, e = vf.run_io([tx, str(T), str(R), "1"], "", timeout=900, env={"TSAN_OPTIONS": "halt_on_error=0 exitcode=66"}); runs += 1
             if rc != 0 or "ThreadSanitizer" in e:
-                m = re.search(r"WARNING: ThreadSanitizer: data race.*?\n(.*?\n){1,12}", e)
-                fails.append(("ThreadSanitizer", "h_conc_tsan %d %d" % (T, R), (e[e.find("WARNING"):][:900] if "WARNING" in e else o + e[-300:])))
+                fails.append(("ThreadSanitizer", "h_conc_tsan %d %d 1" % (T, R), (e[e.find("WARNING"):][:900] if "WARNING" in e else o + e[-300:])))
+            # (b) distinct handles that share one copy-on-write payload
+            rc, o, e = vf.run_io([tx, str(T), str(R), "2"], "", timeout=900, env={"TSAN_OPTIONS": "halt_on_error=0 exitcode=66"}); runs += 1
+            if "CORRUPTED" in o: fails.append(("shared-payload handles", "h_conc_tsan %d %d 2" % (T, R), o.strip()))
+            for rep in re.split(r"={10,}", e):
+                if "data race" not in rep: continue
+                # the recorded finding: a detach() copy (aligned_allocator::construct reading the payload) against the in-place write of the last owner
+                if "aligned_allocator" in rep and "::construct" in rep and "shared_handles" in rep and "Previous read" in rep:
+                    ck.violation("formal data race in copy-on-write detach", {"report": rep[:3000]}, tag="tsan_cow", key="cow-detach-unique-race")
+                else:
+                    fails.append(("ThreadSanitizer (shared-payload handles)", "h_conc_tsan %d %d 2" % (T, R), rep[rep.find("WARNING"):][:900])); break
     ck.stream("workload runs: threads x rounds, digests vs sequential, tables hashed before/after", runs, max(2, runs))
     ck.stream("static-state audit: writable nfl symbols of the linked harness", 1, 2)
     ck.samples = ["h_conc 8 3 (poly<u16,64,2>, poly<u32,256,3>, poly<u64,128,2>: construct, +,-, ntt, *, shoup, ==, !=, invntt, poly2mpz, mpz2poly, serialise, deserialise, poly_p)"]
